@@ -440,7 +440,7 @@ impl<'a> ReplyData<'a> {
             .find(|(_, reply_on)| reply_on == &ReplyOn::Success || reply_on == &ReplyOn::Always)
         {
             Some((method_name, reply_on)) if reply_on == &ReplyOn::Success => {
-                let payload_values = self.payload.iter().map(|field| field.name());
+                let payload_values = self.payload.emit_payload_values();
                 let payload_deserialization = self.payload.emit_payload_deserialization();
                 let data_deserialization = self.data.map(DataField::emit_data_deserialization);
                 let data = self.data.map(|_| quote! { data, });
@@ -457,7 +457,7 @@ impl<'a> ReplyData<'a> {
                 }
             }
             Some((method_name, reply_on)) if reply_on == &ReplyOn::Always => {
-                let payload_values = self.payload.iter().map(|field| field.name());
+                let payload_values = self.payload.emit_payload_values();
                 let payload_deserialization = self.payload.emit_payload_deserialization();
 
                 quote! {
@@ -495,7 +495,7 @@ impl<'a> ReplyData<'a> {
             .find(|(_, reply_on)| reply_on == &ReplyOn::Error || reply_on == &ReplyOn::Always)
         {
             Some((method_name, reply_on)) if reply_on == &ReplyOn::Error => {
-                let payload_values = self.payload.iter().map(|field| field.name());
+                let payload_values = self.payload.emit_payload_values();
                 let payload_deserialization = self.payload.emit_payload_deserialization();
 
                 quote! {
@@ -507,7 +507,7 @@ impl<'a> ReplyData<'a> {
                 }
             }
             Some((method_name, reply_on)) if reply_on == &ReplyOn::Always => {
-                let payload_values = self.payload.iter().map(|field| field.name());
+                let payload_values = self.payload.emit_payload_values();
                 let payload_deserialization = self.payload.emit_payload_deserialization();
 
                 quote! {
@@ -686,24 +686,37 @@ impl DataField for MsgField<'_> {
 pub trait PayloadFields {
     fn emit_payload_deserialization(&self) -> TokenStream;
     fn emit_payload_serialization(&self) -> TokenStream;
+    fn emit_payload_values(&self) -> Vec<Ident>;
     fn is_payload_marked(&self) -> bool;
 }
 
 impl PayloadFields for Vec<&MsgField<'_>> {
     fn emit_payload_deserialization(&self) -> TokenStream {
         let sylvia = crate_module();
+        let payload_values = self.emit_payload_values();
         if self.is_payload_marked() {
             // Safe to unwrap as we check if the payload exist.
-            let payload_value = self.first().unwrap().name();
+            let payload_value = payload_values.first().unwrap();
             return quote! {
                 let #payload_value = payload ;
             };
         }
 
-        let deserialized_payload_names = self.iter().map(|field| field.name());
         quote! {
-            let ( #(#deserialized_payload_names),* ) = #sylvia ::cw_std::from_json(&payload)?;
+            let ( #(#payload_values),* ) = #sylvia ::cw_std::from_json(&payload)?;
         }
+    }
+
+    /// Identifiers the deserialized payload is bound to inside of `dispatch_reply`.
+    /// Names of the handler's parameters are not used there as they could shadow the
+    /// variables of the dispatcher (`gas_used`, `result`, `deps`..).
+    fn emit_payload_values(&self) -> Vec<Ident> {
+        self.iter()
+            .enumerate()
+            .map(|(index, field)| {
+                Ident::new(&format!("sv_payload_field_{}", index), field.name().span())
+            })
+            .collect()
     }
 
     fn emit_payload_serialization(&self) -> TokenStream {
